@@ -132,6 +132,13 @@ func (r *Reconnector) attemptReconnect(addr string) {
 		}
 		// Reschedule if still within limits
 		if r.cfg.MaxAttempts == 0 || state.attempts < r.cfg.MaxAttempts {
+			// The dial callback may have scheduled a retry itself (the manager
+			// does so when dialing a persistent peer fails). Stop that timer
+			// before arming ours: otherwise both fire and every failed attempt
+			// adds another retry chain.
+			if state.timer != nil {
+				state.timer.Stop()
+			}
 			delay := r.addJitter(state.nextDelay)
 			state.timer = time.AfterFunc(delay, func() {
 				r.attemptReconnect(addr)
